@@ -16,7 +16,7 @@ class _Scripted:
     """control stream of a client talking to a scripted server: replies are consumed one per command"""
 
     def __init__(self, replies):
-        self.replies = [r.encode("utf-8") for r in replies]
+        self.replies = [l for r in replies for l in r.encode("utf-8").splitlines(keepends=True)]
         self.written = []
 
     async def readline(self):
@@ -34,6 +34,10 @@ for n in range(1, 5):
     for steps in itertools.product(("331", "332"), repeat=n):
         DIALOGUES.append(list(steps) + ["230"])
 DIALOGUES += [["331", "530"], ["332", "331", "530"], ["331", "332", "331", "331", "230"]]
+# a server that is not aioftp may answer PASS (or ACCT) with ANY code - 421 when it is shutting down or full, 5xx when it
+# does not like the moment, 1xx/2xx of its own: the client fails or goes on, and logs no secret either way
+DIALOGUES += [["331", "%03d" % c] for c in range(100, 600)] + [["331", "332", "%03d" % c] for c in (421, 451, 500, 502, 530, 120, 202)]
+DIALOGUES += [["331", "230-welcome\r\n230-two\r\n230"], ["331", "421-going down\r\n421"], ["331", "530-no\r\n plain\r\n530"]]
 
 
 def run(ctx, scale=1):
